@@ -11,12 +11,10 @@ use crate::{
     storage::archive_file::ArchiveManager,
 };
 use cascette_crypto::{ContentKey, EncodingKey};
-use cascette_formats::CascFormat;
-use cascette_formats::blte::BlteFile;
 use std::path::PathBuf;
 use std::sync::Arc;
 use tokio::sync::RwLock as AsyncRwLock;
-use tracing::{debug, info, warn};
+use tracing::{debug, info};
 
 /// Represents a game installation with its local CASC storage
 ///
@@ -147,8 +145,11 @@ impl Installation {
             index_entry.size
         );
 
-        // Step 3: Read raw BLTE data from archive
-        let raw_data = {
+        // Step 3: Read the entry from the archive. `read_content` skips the
+        // local header and decodes the BLTE container, so this is the file
+        // content. It must not be decoded again: content that itself looks
+        // like BLTE would be altered.
+        let data = {
             let archive_manager = self.archive_manager.read().await;
             archive_manager.read_content(
                 index_entry.archive_id(),
@@ -157,10 +158,7 @@ impl Installation {
             )?
         };
 
-        // Step 4: Decode BLTE container to get actual file content
-        let data = Self::decode_blte(&raw_data)?;
-
-        // Step 5: Cache the decoded result for future reads
+        // Step 4: Cache the decoded result for future reads
         {
             let cache = self.cache.read().await;
             cache.insert(cache_key, data.clone());
@@ -213,8 +211,11 @@ impl Installation {
             index_entry.size
         );
 
-        // Read raw BLTE data from archive
-        let raw_data = {
+        // Read the entry from the archive. `read_content` skips the local
+        // header and decodes the BLTE container, so this is the file content.
+        // It must not be decoded again: content that itself looks like BLTE
+        // would be altered.
+        let data = {
             let archive_manager = self.archive_manager.read().await;
             archive_manager.read_content(
                 index_entry.archive_id(),
@@ -223,9 +224,6 @@ impl Installation {
             )?
         };
 
-        // Decode BLTE container to get actual file content
-        let data = Self::decode_blte(&raw_data)?;
-
         // Cache the decoded result
         {
             let cache = self.cache.read().await;
@@ -233,63 +231,6 @@ impl Installation {
         }
 
         Ok(data)
-    }
-
-    /// Decode BLTE-encoded data to get the actual file content
-    ///
-    /// Local CASC archives have a 30-byte header before each BLTE entry:
-    /// - 0x00-0x0F: Encoding key (16 bytes, reversed)
-    /// - 0x10-0x13: Size including header (4 bytes)
-    /// - 0x14-0x15: Flags (2 bytes)
-    /// - 0x16-0x19: ChecksumA (4 bytes)
-    /// - 0x1A-0x1D: ChecksumB (4 bytes)
-    /// - 0x1E+: BLTE data
-    fn decode_blte(raw_data: &[u8]) -> Result<Vec<u8>> {
-        /// Local archive entry header size (before BLTE data)
-        const LOCAL_HEADER_SIZE: usize = 0x1E; // 30 bytes
-
-        // Check minimum size for local header + BLTE magic
-        if raw_data.len() < LOCAL_HEADER_SIZE + 4 {
-            // Too small, return as-is
-            debug!("Data too small for local CASC format, returning raw");
-            return Ok(raw_data.to_vec());
-        }
-
-        // Check for BLTE magic at offset 0x1E (after local header)
-        let blte_offset = if &raw_data[LOCAL_HEADER_SIZE..LOCAL_HEADER_SIZE + 4] == b"BLTE" {
-            // Standard local archive format with 30-byte header
-            LOCAL_HEADER_SIZE
-        } else if &raw_data[0..4] == b"BLTE" {
-            // Direct BLTE (no local header, e.g., from CDN)
-            0
-        } else {
-            // Not BLTE-encoded, return raw data
-            debug!("Data is not BLTE-encoded, returning raw");
-            return Ok(raw_data.to_vec());
-        };
-
-        let blte_data = &raw_data[blte_offset..];
-
-        // Parse and decompress BLTE
-        let blte = BlteFile::parse(blte_data).map_err(|e| {
-            StorageError::Io(std::io::Error::other(format!("Failed to parse BLTE: {e}")))
-        })?;
-
-        let decoded = blte.decompress().map_err(|e| {
-            // If decompression fails (e.g., encrypted), return raw data with warning
-            warn!("BLTE decompression failed: {e}");
-            StorageError::Io(std::io::Error::other(format!(
-                "BLTE decompression failed: {e}"
-            )))
-        })?;
-
-        debug!(
-            "BLTE decoded: {} bytes (offset {}) -> {} bytes",
-            raw_data.len(),
-            blte_offset,
-            decoded.len()
-        );
-        Ok(decoded)
     }
 
     /// Read a file by path (complete resolution chain with caching)
@@ -661,4 +602,56 @@ pub struct InstallationStats {
     pub cached_paths: usize,
     /// Number of cached content resolutions
     pub cached_content: usize,
+}
+
+#[cfg(test)]
+#[allow(clippy::expect_used)]
+mod tests {
+    use super::*;
+    use cascette_formats::CascFormat;
+    use cascette_formats::blte::{BlteFile, CompressionMode};
+    use tempfile::tempdir;
+
+    /// Encoding key `write_file` stores uncompressed content under.
+    fn encoding_key_of(content: &[u8]) -> EncodingKey {
+        let blte = BlteFile::single_chunk(content.to_vec(), CompressionMode::None)
+            .expect("single chunk")
+            .build()
+            .expect("build");
+        EncodingKey::from_data(&blte)
+    }
+
+    #[tokio::test]
+    async fn test_content_that_looks_like_blte_is_returned_unchanged() {
+        // A complete BLTE file stored as content
+        let nested = BlteFile::single_chunk(vec![0x5A; 91], CompressionMode::None)
+            .expect("single chunk")
+            .build()
+            .expect("build");
+
+        // 30 arbitrary bytes followed by a complete BLTE file
+        // (the layout of a local archive entry)
+        let mut entry_like = vec![0xC3; 0x1E];
+        entry_like.extend_from_slice(&nested);
+
+        // Starts with the BLTE magic but is not a BLTE file
+        let mut magic_only = b"BLTE".to_vec();
+        magic_only.extend_from_slice(&[0xFF; 60]);
+
+        for content in [nested, entry_like, magic_only] {
+            let dir = tempdir().expect("tempdir");
+            let install = Installation::open(dir.path().to_path_buf()).expect("open");
+            install.initialize().await.expect("initialize");
+
+            install
+                .write_file(content.clone(), false)
+                .await
+                .expect("write");
+            let read = install
+                .read_file_by_encoding_key(&encoding_key_of(&content))
+                .await
+                .expect("read");
+            assert_eq!(read, content, "stored content must come back unchanged");
+        }
+    }
 }
